@@ -480,8 +480,15 @@ func (a *Allocation) flushOrInvalidateRange(offset, size int, outRange *core1_0.
 	nonCoherentAtomSize := a.parentAllocator.deviceMemory.DeviceProperties().Limits.NonCoherentAtomSize
 	allocationSize := a.Size()
 
+	if offset < 0 {
+		return false, errors.Errorf("offset %d is negative", offset)
+	}
 	if offset > allocationSize {
 		return false, errors.Errorf("offset %d is past the end of the allocation, which is size %d", offset, allocationSize)
+	}
+	if offset == allocationSize {
+		// Nothing lies between the offset and the end of the allocation
+		return false, nil
 	}
 	if size > 0 && (offset+size) > allocationSize {
 		return false, errors.Errorf("offset %d places the end of the block %d past the end of the allocation, which is size %d", offset, offset+size, allocationSize)
